@@ -22,6 +22,7 @@ import Proofs.Lemmas.C06Proj
 import Proofs.Lemmas.C06ParseInd
 import Proofs.Lemmas.C06Heap
 import Proofs.Lemmas.C06WF
+import Proofs.Lemmas.C06LitRe
 
 namespace C06
 open Proc.FilterEval Spec.FilterSem Proc.Extract Proc.Tok Proc.FilterText Proc.FilterHeap C07
@@ -261,6 +262,17 @@ def exResF12 : Res := { name := Bytes.ofString "Foo/size=1", config := [], value
 example : exProjs.flatten.all (inFixed (fullnameKeysOf exProjs) · exResF12) = true := by decide +kernel
 example : projValue (fullnameKeysOf exProjs) dotFullname exResF12 = [70, 111, 111] := by decide +kernel
 example : decide (exResF12.name ∈ [[70, 111, 111], [66, 97, 114]]) = false := by decide +kernel
+
+/-! ## the literal sub-language of regular expressions (S oracle for such terms) -/
+
+/-- **litre_spec**: the Lean matcher used by the S layer for regexp terms of the form
+`^?literal$?` (also `\\A…\\z`, `(?:literal)`, escaped punctuation) says: the value is
+`p ++ literal ++ s` with `p` empty under a start anchor and `s` empty under an end anchor —
+"is exactly", "starts with", "ends with", "contains". -/
+theorem litre_spec (r : Spec.LitRegexp.LitRe) (v : Bytes) :
+    r.matches v = true ↔
+      ∃ p s, v = p ++ r.lit ++ s ∧ (r.anchS = true → p = []) ∧ (r.anchE = true → s = []) :=
+  litre_matches_spec r v
 
 /-! ## aliasing (heap model, Model/Proc/FilterHeap.lean) -/
 
